@@ -195,6 +195,8 @@ val concat : 'a1 list list -> 'a1 list
 
 val map : ('a1 -> 'a2) -> 'a1 list -> 'a2 list
 
+val flat_map : ('a1 -> 'a2 list) -> 'a1 list -> 'a2 list
+
 val fold_left : ('a1 -> 'a2 -> 'a1) -> 'a2 list -> 'a1 -> 'a1
 
 val forallb : ('a1 -> bool) -> 'a1 list -> bool
@@ -566,3 +568,25 @@ val documented_index_alphabet : str list
 val doc_digit : str option -> n
 
 val doc_value : n list -> n
+
+val body_char : n -> bool
+
+type item = str * bool
+
+val sym_of : str -> str
+
+val render_item : item -> str
+
+val tokens_item : item -> str list
+
+val render : item list -> str
+
+val tokens : item list -> str list
+
+val symbols : item list -> str list
+
+val take_body : str -> (str * str) option
+
+val wf_parse_fuel : nat -> str -> item list option
+
+val wf_parse : str -> item list option
